@@ -66,6 +66,28 @@ type NullSlices struct {
 	MF map[string][]null.Float `plenc:"7"`
 }
 
+// registrations made on one instance only (Cfg.WithCustom): overridden int64, the tag "zz"
+type N64 int64
+type NStr string
+type NI32 int32
+type Custom struct {
+	A int64          `plenc:"1"`
+	B N64            `plenc:"2"`
+	C []N64          `plenc:"3"`
+	D map[N64]*int64 `plenc:"4"`
+	E string         `plenc:"5,zz"`
+	F NStr           `plenc:"6,zz"`
+	G int32          `plenc:"7,zz"`
+	H *NI32          `plenc:"8,zz"`
+	I MyInt          `plenc:"9"`
+}
+type CustomPlain struct {
+	A int64   `plenc:"1"`
+	B N64     `plenc:"2"`
+	C *N64    `plenc:"3"`
+	D []int64 `plenc:"4"`
+}
+
 type Named struct {
 	A MyInt                `plenc:"1"`
 	B MyString             `plenc:"2" json:"bee"`
@@ -178,3 +200,4 @@ var catalogue = []reflect.Type{
 var catalogueNull = []reflect.Type{reflect.TypeOf(WithNull{}), reflect.TypeOf(NullSlices{}), reflect.TypeOf([]null.Float{})}
 var catalogueJSON = []reflect.Type{reflect.TypeOf(JSONHolder{}), tJSONMap, tJSONArr}
 var catalogueBQ = []reflect.Type{reflect.TypeOf(BQHolder{})}
+var catalogueCustom = []reflect.Type{reflect.TypeOf(Custom{}), reflect.TypeOf(CustomPlain{}), reflect.TypeOf(N64(0)), reflect.TypeOf([]N64{})}
